@@ -17,6 +17,9 @@ NOT_DECIDED = ("trace equality of a clone with its original; distinctness of res
 
 
 def check(ctx):
+    from .c11 import implicit_need_relative
+    ctx.rule("T6-relative", "implicit framer needs (timeout/repeat) use the framer-relative path framer.me.state.<name>")
+    implicit_need_relative(ctx, "T6-relative")
     ctx.rule("T6-lists", "every *acts list of Frame.__init__ is cloned via its add method, resolved, and dispatched")
     ctx.rule("T3-clone", "Frame.clone/Framer.clone/Act.clone carry links and refuse resolved links")
     ctx.rule("T9-names", "clone name = '_'.join((surname, tag)); tag loops exit only on a free tag; duplicate name refused")
